@@ -24,7 +24,7 @@ def main():
     run = re.search(r"go test[^\n]*", loc)
     if not m or not run:
         print('DROP', sid, 'cannot parse demo_location.txt'); return 1
-    demo_rel = m.group(1).replace('<worktree>/', '')
+    demo_rel = re.sub(r'^/tmp/seed-[A-D]/', '', m.group(1).replace('<worktree>/', ''))
     demo_cmd = run.group(0)
     pkg = './' + os.path.dirname(demo_rel) + '/'
     wt = '/var/tmp/seedverify-' + sid
@@ -41,7 +41,7 @@ def main():
         base_fail = failing_tests(out)
         shutil.copy(os.path.join(src, 'demo_test.go'), os.path.join(wt, demo_rel))
         rc0, out0 = sh(demo_cmd + ' 2>&1 | tail -30', wt)
-        clean_ok = rc0 == 0 and 'FAIL' not in out0
+        clean_ok = rc0 == 0 and 'FAIL' not in out0 and 'no tests to run' not in out0
         log.append('demo on unchanged tree: ' + ('PASS' if clean_ok else 'FAIL\n' + out0[-600:]))
         rc, out = sh('git apply ' + patch, wt)
         if rc != 0:
